@@ -185,57 +185,67 @@ Definition norm_scalar (v : pyval) : dval :=
 Definition typ_final (d : dval) (t : str) : fld str :=
   if negb (dval_is_NoneStr d) && code_quoted_dval d then (if contains [ch 91] t then Has t else Missing) else Has t.
 
+(* the last two steps of _infer_default *)
+Definition infer_tail (q : gparam) (d : dval) (tn : option str) : outcome gparam :=
+  do typ5 <- (if fld_is_none (g_typ q) && negb (dval_is_NoneStr d)
+              then match tn with
+                   | Some n => Ok (Has n)
+                   | None => match dval_type_name d with Some n => Ok (Has n) | None => Err Unmodelled end
+                   end
+              else Ok (g_typ q));
+  if negb (dval_is_NoneStr d) && code_quoted_dval d then
+    match typ5 with
+    | Missing => Err KeyError
+    | FNone => Err TypeError
+    | Has t => if contains [ch 91] t then Ok (mkG (g_doc q) typ5 (Some d))
+               else Ok (mkG (g_doc q) Missing (Some d))
+    end
+  else Ok (mkG (g_doc q) typ5 (Some d)).
+
+Lemma infer_tail_spec : forall q d tn p1, infer_tail q d tn = Ok p1 ->
+  g_doc p1 = g_doc q /\ g_default p1 = Some d /\ (forall t, g_typ q = Has t -> g_typ p1 = typ_final d t).
+Proof.
+  intros q d tn p1 H. unfold infer_tail in H.
+  destruct (g_typ q) as [| |t] eqn:Et; cbn [fld_is_none andb] in H.
+  - destruct (negb (dval_is_NoneStr d)); cbn [bind andb] in H.
+    + destruct (match tn with Some n => Ok (Has n) | None => match dval_type_name d with Some n => Ok (Has n) | None => Err Unmodelled end end) as [[| |nm]|]; cbn [bind] in H;
+        destruct (code_quoted_dval d); try discriminate; try (destruct (contains [ch 91] nm));
+        inversion H; subst; cbn [g_doc g_default g_typ]; (split; [reflexivity|]); (split; [reflexivity|]);
+        intros t' Ht'; discriminate.
+    + inversion H; subst; cbn [g_doc g_default g_typ]; (split; [reflexivity|]); (split; [reflexivity|]);
+        intros t' Ht'; discriminate.
+  - destruct (negb (dval_is_NoneStr d)); cbn [bind andb] in H.
+    + destruct (match tn with Some n => Ok (Has n) | None => match dval_type_name d with Some n => Ok (Has n) | None => Err Unmodelled end end) as [[| |nm]|]; cbn [bind] in H;
+        destruct (code_quoted_dval d); try discriminate; try (destruct (contains [ch 91] nm));
+        inversion H; subst; cbn [g_doc g_default g_typ]; (split; [reflexivity|]); (split; [reflexivity|]);
+        intros t' Ht'; discriminate.
+    + inversion H; subst; cbn [g_doc g_default g_typ]; (split; [reflexivity|]); (split; [reflexivity|]);
+        intros t' Ht'; discriminate.
+  - cbn [bind] in H.
+    assert (Hp1 : p1 = mkG (g_doc q) (typ_final d t) (Some d)).
+    { unfold typ_final. destruct (negb (dval_is_NoneStr d) && code_quoted_dval d);
+        [destruct (contains [ch 91] t)|]; inversion H; reflexivity. }
+    subst p1. cbn [g_doc g_default g_typ]. split; [reflexivity|]. split; [reflexivity|].
+    intros t' Ht'. inversion Ht'; reflexivity.
+Qed.
+
 Lemma infer_default_DV : forall q v p1, infer_default q (DV v) false = Ok p1 ->
   g_doc p1 = g_doc q /\ g_default p1 = Some (norm_scalar v)
   /\ (forall t, g_typ q = Has t -> g_typ p1 = typ_final (norm_scalar v) t).
 Proof.
-  intros q v p1 H. unfold infer_default in H. cbn [bind andb] in H.
+  intros q v p1 H. unfold infer_default in H. cbn [bind andb dval_in_none_types] in H.
   unfold norm_scalar.
-  destruct (needs_quoting (fget (g_typ q))) as [nq|] eqn:Enq; cbn [bind] in H; [|discriminate].
   destruct (in_none_types v) eqn:Env.
-  - cbn [dval_in_none_types] in H. rewrite Env in H. cbn [bind] in H.
+  - destruct (needs_quoting (fget (g_typ q))) as [nq|]; cbn [bind] in H; [|discriminate].
     rewrite orb_true_r in H. cbn [bind] in H. rewrite unquote_NoneStr in H.
-    assert (Hns : dval_is_NoneStr (DV (VStr NoneStr)) = true) by (cbn [dval_is_NoneStr]; apply str_eqb_refl).
-    rewrite Hns in H. cbn [negb] in H. rewrite andb_false_r in H. cbn [bind negb andb] in H.
-    inversion H; subst; cbn [g_doc g_default g_typ]. split; [reflexivity|]. split; [reflexivity|].
-    intros t Ht. unfold typ_final. rewrite Hns. cbn [negb andb]. exact Ht.
-  - cbn [dval_in_none_types] in H. rewrite Env in H.
+    apply (infer_tail_spec q (DV (VStr NoneStr)) None p1 H).
+  - destruct (needs_quoting (fget (g_typ q))) as [nq|]; cbn [bind] in H; [|discriminate].
     destruct v as [|bb|z|f|s].
-    + cbn in Env. (* None is in none_types *) vm_compute in Env. discriminate.
-    + rewrite orb_false_r in H.
-      assert (E4 : (if nq then Ok (DV (VBool bb), @None str) else Ok (DV (VBool bb), @None str)) = Ok (DV (VBool bb), @None str)) by (destruct nq; reflexivity).
-      rewrite E4 in H. cbn [bind] in H.
-      destruct (g_typ q) as [| |t] eqn:Et; cbn [fld_is_none andb dval_is_NoneStr negb dval_type_name type_name bind code_quoted_dval] in H;
-        inversion H; subst; cbn [g_doc g_default g_typ]; (split; [reflexivity|]); (split; [reflexivity|]);
-        intros t' Ht'; try discriminate. inversion Ht'; subst. reflexivity.
-    + rewrite orb_false_r in H.
-      assert (E4 : (if nq then Ok (DV (VInt z), @None str) else Ok (DV (VInt z), @None str)) = Ok (DV (VInt z), @None str)) by (destruct nq; reflexivity).
-      rewrite E4 in H. cbn [bind] in H.
-      destruct (g_typ q) as [| |t] eqn:Et; cbn [fld_is_none andb dval_is_NoneStr negb dval_type_name type_name bind code_quoted_dval] in H;
-        inversion H; subst; cbn [g_doc g_default g_typ]; (split; [reflexivity|]); (split; [reflexivity|]);
-        intros t' Ht'; try discriminate. inversion Ht'; subst. reflexivity.
-    + rewrite orb_false_r in H.
-      assert (E4 : (if nq then Ok (DV (VFloat f), @None str) else Ok (DV (VFloat f), @None str)) = Ok (DV (VFloat f), @None str)) by (destruct nq; reflexivity).
-      rewrite E4 in H. cbn [bind] in H.
-      destruct (g_typ q) as [| |t] eqn:Et; cbn [fld_is_none andb dval_is_NoneStr negb dval_type_name type_name bind code_quoted_dval] in H;
-        inversion H; subst; cbn [g_doc g_default g_typ]; (split; [reflexivity|]); (split; [reflexivity|]);
-        intros t' Ht'; try discriminate. inversion Ht'; subst. reflexivity.
-    + rewrite orb_true_r in H. cbn [bind] in H.
-      destruct (g_typ q) as [| |t] eqn:Et; cbn [fld_is_none andb bind dval_type_name type_name] in H.
-      * destruct (negb (dval_is_NoneStr (DV (VStr (unquote s))))); cbn [bind] in H;
-          destruct (code_quoted_dval (DV (VStr (unquote s)))); cbn [andb] in H;
-          try (destruct (contains [ch 91] (L "str"))); inversion H; subst; cbn [g_doc g_default g_typ];
-          (split; [reflexivity|]); (split; [reflexivity|]); intros t' Ht'; discriminate.
-      * destruct (negb (dval_is_NoneStr (DV (VStr (unquote s))))); cbn [bind] in H;
-          destruct (code_quoted_dval (DV (VStr (unquote s)))); cbn [andb] in H;
-          try (destruct (contains [ch 91] (L "str"))); inversion H; subst; cbn [g_doc g_default g_typ];
-          (split; [reflexivity|]); (split; [reflexivity|]); intros t' Ht'; discriminate.
-      * assert (Hp1 : p1 = mkG (g_doc q) (typ_final (DV (VStr (unquote s))) t) (Some (DV (VStr (unquote s))))).
-        { unfold typ_final.
-          destruct (negb (dval_is_NoneStr (DV (VStr (unquote s)))) && code_quoted_dval (DV (VStr (unquote s))));
-            [destruct (contains [ch 91] t)|]; inversion H; reflexivity. }
-        subst p1. cbn [g_doc g_default g_typ]. split; [reflexivity|]. split; [reflexivity|].
-        intros t' Ht'. inversion Ht'; reflexivity.
+    + vm_compute in Env. discriminate.
+    + rewrite orb_false_r in H. destruct nq; cbn [bind] in H; apply (infer_tail_spec q _ None p1 H).
+    + rewrite orb_false_r in H. destruct nq; cbn [bind] in H; apply (infer_tail_spec q _ None p1 H).
+    + rewrite orb_false_r in H. destruct nq; cbn [bind] in H; apply (infer_tail_spec q _ None p1 H).
+    + rewrite orb_true_r in H. cbn [bind] in H. apply (infer_tail_spec q _ None p1 H).
 Qed.
 
 Lemma infer_default_DE_const : forall q v,
@@ -251,11 +261,11 @@ Lemma expected_nonconst : forall e, is_const e = false ->
 Proof. intros e H. destruct e; try reflexivity. discriminate. Qed.
 
 Lemma infer_default_DE_nonconst : forall q e p1, is_const e = false ->
-  needs_quoting (fget (g_typ q)) = Ok false -> infer_default q (DE e) false = Ok p1 ->
+  infer_default q (DE e) false = Ok p1 ->
   exists dv, expected_sig_default e = Some dv /\ g_doc p1 = g_doc q /\ g_default p1 = Some dv
              /\ (forall t, g_typ q = Has t -> g_typ p1 = typ_final dv t).
 Proof.
-  intros q e p1 Hc Hnq H. rewrite (expected_nonconst e Hc). unfold infer_default in H.
+  intros q e p1 Hc H. rewrite (expected_nonconst e Hc). unfold infer_default in H.
   assert (Hd1 : exists o, (match DE e with
                            | DE (EConst v) => Ok (DV (none_to_NoneStr v))
                            | DE (EOpaque src) => if opaque_maybe_const src then Err Unmodelled else Ok (DE e)
@@ -264,45 +274,15 @@ Proof.
   { eexists; split; [reflexivity|]. destruct e; try (left; reflexivity); try discriminate.
     destruct (opaque_maybe_const src); [right|left]; reflexivity. }
   destruct Hd1 as [o [Ho Hcase]]. rewrite Ho in H. destruct Hcase as [-> | ->]; cbn [bind] in H; [|discriminate].
-  cbn [dval_in_none_types andb bind] in H. rewrite Hnq in H. cbn [bind orb] in H.
+  cbn [dval_in_none_types andb bind] in H.
   destruct (expr_ok e); cbn [negb] in H; [|discriminate].
   destruct (lit_eval e) as [lv|er] eqn:El.
   - cbn [bind] in H. exists (dval_of_lval lv). split; [reflexivity|].
-    destruct (g_typ q) as [| |t] eqn:Et; cbn [fld_is_none andb] in H.
-    + destruct (negb (dval_is_NoneStr (dval_of_lval lv))); cbn [bind] in H;
-        destruct (code_quoted_dval (dval_of_lval lv)); cbn [andb] in H;
-        try (destruct (contains [ch 91] (lval_type_name lv))); inversion H; subst; cbn [g_doc g_default g_typ];
-        (split; [reflexivity|]); (split; [reflexivity|]); intros t' Ht'; discriminate.
-    + destruct (negb (dval_is_NoneStr (dval_of_lval lv))); cbn [bind] in H;
-        destruct (code_quoted_dval (dval_of_lval lv)); cbn [andb] in H;
-        try (destruct (contains [ch 91] (lval_type_name lv))); inversion H; subst; cbn [g_doc g_default g_typ];
-        (split; [reflexivity|]); (split; [reflexivity|]); intros t' Ht'; discriminate.
-    + cbn [bind] in H.
-      assert (Hp1 : p1 = mkG (g_doc q) (typ_final (dval_of_lval lv) t) (Some (dval_of_lval lv))).
-      { unfold typ_final.
-        destruct (negb (dval_is_NoneStr (dval_of_lval lv)) && code_quoted_dval (dval_of_lval lv));
-          [destruct (contains [ch 91] t)|]; inversion H; reflexivity. }
-      subst p1. cbn [g_doc g_default g_typ]. split; [reflexivity|]. split; [reflexivity|].
-      intros t' Ht'. inversion Ht'; reflexivity.
+    apply (infer_tail_spec q (dval_of_lval lv) (Some (lval_type_name lv)) p1 H).
   - destruct er; try discriminate. cbn [bind] in H.
     change (bt3 ++ paren_wrap_code (rstrip_chars [nl] (show_expr e)) ++ bt3) with (code_quote e) in H.
     exists (DV (VStr (code_quote e))). split; [reflexivity|].
-    destruct (g_typ q) as [| |t] eqn:Et; cbn [fld_is_none andb] in H.
-    + destruct (negb (dval_is_NoneStr (DV (VStr (code_quote e))))); cbn [bind dval_type_name type_name] in H;
-        destruct (code_quoted_dval (DV (VStr (code_quote e)))); cbn [andb] in H;
-        try (destruct (contains [ch 91] (L "str"))); inversion H; subst; cbn [g_doc g_default g_typ];
-        (split; [reflexivity|]); (split; [reflexivity|]); intros t' Ht'; discriminate.
-    + destruct (negb (dval_is_NoneStr (DV (VStr (code_quote e))))); cbn [bind dval_type_name type_name] in H;
-        destruct (code_quoted_dval (DV (VStr (code_quote e)))); cbn [andb] in H;
-        try (destruct (contains [ch 91] (L "str"))); inversion H; subst; cbn [g_doc g_default g_typ];
-        (split; [reflexivity|]); (split; [reflexivity|]); intros t' Ht'; discriminate.
-    + cbn [bind] in H.
-      assert (Hp1 : p1 = mkG (g_doc q) (typ_final (DV (VStr (code_quote e))) t) (Some (DV (VStr (code_quote e))))).
-      { unfold typ_final.
-        destruct (negb (dval_is_NoneStr (DV (VStr (code_quote e)))) && code_quoted_dval (DV (VStr (code_quote e))));
-          [destruct (contains [ch 91] t)|]; inversion H; reflexivity. }
-      subst p1. cbn [g_doc g_default g_typ]. split; [reflexivity|]. split; [reflexivity|].
-      intros t' Ht'. inversion Ht'; reflexivity.
+    apply (infer_tail_spec q (DV (VStr (code_quote e))) None p1 H).
 Qed.
 
 (* ------------------------------------------------------------------ *)
@@ -394,7 +374,6 @@ Definition final_of (q : gparam) : option dval :=
   end.
 
 Lemma snt_param_analysis : forall k q rp, kwargs_like k = false -> snt_param k q false true = Ok rp ->
-  (forall e, g_default q = Some (DE e) -> is_const e = false -> needs_quoting (fget (g_typ q)) = Ok false) ->
   (forall r, g_default q <> Some (DO r)) ->
   g_default rp = final_of q
   /\ (g_default q <> None -> exists dv, g_default rp = Some dv)
@@ -403,7 +382,7 @@ Lemma snt_param_analysis : forall k q rp, kwargs_like k = false -> snt_param k q
         (match final_of q with Some dv => typ_final dv t = Has t | None => True end) ->
         g_typ rp = Has (typ_after_prose (truthy_doc (g_doc q)) t)).
 Proof.
-  intros k q rp Hk H Hnq Hdo. unfold snt_param, snt_pre in H. rewrite Hk in H. unfold final_of.
+  intros k q rp Hk H Hdo. unfold snt_param, snt_pre in H. rewrite Hk in H. unfold final_of.
   destruct (g_default q) as [[v|e|r]|] eqn:Ed.
   - destruct (infer_default q (DV v) false) as [p1|] eqn:Ei; cbn [bind] in H; [|discriminate].
     destruct (infer_default_DV _ _ _ Ei) as (Hd1 & Hv1 & Ht1).
@@ -418,7 +397,7 @@ Proof.
       rewrite Hv, Hv1, Hd, Hd1. split; [reflexivity|]. split; [intros _; eexists; reflexivity|]. split; [reflexivity|].
       intros t Hqt Hfin. rewrite Hd1 in Ht. apply Ht. rewrite (Ht1 t Hqt). exact Hfin.
     + destruct (infer_default q (DE e) false) as [p1|] eqn:Ei; cbn [bind] in H; [|discriminate].
-      destruct (infer_default_DE_nonconst _ _ _ Ec (Hnq e eq_refl Ec) Ei) as (dv & He & Hd1 & Hv1 & Ht1).
+      destruct (infer_default_DE_nonconst _ _ _ Ec Ei) as (dv & He & Hd1 & Hv1 & Ht1).
       destruct (snt_post_spec _ _ H) as (Hv & Hd & Ht).
       assert (Hm : (match e with EConst v => Some (norm_scalar (none_to_NoneStr v)) | _ => expected_sig_default e end) = Some dv).
       { destruct e; try exact He. discriminate. }
@@ -464,9 +443,7 @@ Qed.
 (* ------------------------------------------------------------------ *)
 Lemma param_class_None : forall dp sp, param_class dp sp = None ->
   exists nq, needs_quoting (eff_typ dp sp) = Ok nq
-  /\ (doc_default_given dp = None -> forall e, s_default sp = Some e ->
-        (forall s, e = EConst (VStr s) -> str_default_altered s = false)
-        /\ (is_const e = false -> nq = false))
+  /\ (doc_default_given dp = None -> forall s, s_default sp = Some (EConst (VStr s)) -> str_default_altered s = false)
   /\ type_dropped (final_default dp sp) (eff_typ dp sp) = false.
 Proof.
   intros dp sp H. unfold param_class in H.
@@ -476,29 +453,15 @@ Proof.
   - split; [discriminate|]. destruct (s_default sp); destruct (type_dropped _ _); try discriminate; reflexivity.
   - destruct (s_default sp) as [e|] eqn:Es.
     + destruct e as [v|id|e1 at1|e1 s1|es|es|ks vs|f args kws|op e1|src];
-        try (match type of H with (if ?c then _ else _) = None => destruct c eqn:Ec; [discriminate|] end;
-             match type of H with (if ?c then _ else _) = None => destruct c eqn:Ed; [discriminate|] end;
-             split; [|first [exact Ed|reflexivity]]; intros _ e0 He0; inversion He0; subst e0;
-             split; [intros s0 Hs0; discriminate|];
-             intros _; cbn [is_const negb] in Ec; rewrite andb_true_r in Ec; exact Ec).
-      destruct v as [|bb|z|fl|s].
-      * destruct (nq && negb (is_const (EConst VNone))) eqn:Ec; [discriminate|].
-        match type of H with (if ?c then _ else _) = None => destruct c eqn:Ed; [discriminate|] end.
-        split; [|first [exact Ed|reflexivity]]. intros _ e0 He0; inversion He0; subst e0. split; [intros s0 Hs0; discriminate|intros Hc; discriminate].
-      * destruct (nq && negb (is_const (EConst (VBool bb)))) eqn:Ec; [discriminate|].
-        match type of H with (if ?c then _ else _) = None => destruct c eqn:Ed; [discriminate|] end.
-        split; [|first [exact Ed|reflexivity]]. intros _ e0 He0; inversion He0; subst e0. split; [intros s0 Hs0; discriminate|intros Hc; discriminate].
-      * destruct (nq && negb (is_const (EConst (VInt z)))) eqn:Ec; [discriminate|].
-        match type of H with (if ?c then _ else _) = None => destruct c eqn:Ed; [discriminate|] end.
-        split; [|first [exact Ed|reflexivity]]. intros _ e0 He0; inversion He0; subst e0. split; [intros s0 Hs0; discriminate|intros Hc; discriminate].
-      * destruct (nq && negb (is_const (EConst (VFloat fl)))) eqn:Ec; [discriminate|].
-        match type of H with (if ?c then _ else _) = None => destruct c eqn:Ed; [discriminate|] end.
-        split; [|first [exact Ed|reflexivity]]. intros _ e0 He0; inversion He0; subst e0. split; [intros s0 Hs0; discriminate|intros Hc; discriminate].
-      * destruct (str_default_altered s) eqn:Ea; [discriminate|].
-        match type of H with (if ?c then _ else _) = None => destruct c eqn:Ed; [discriminate|] end.
-        split; [|first [exact Ed|reflexivity]]. intros _ e0 He0; inversion He0; subst e0.
-        split; [intros s0 Hs0; inversion Hs0; subst; exact Ea|intros Hc; discriminate].
-    + split; [intros _ e He; discriminate|]. destruct (type_dropped _ _); [discriminate|reflexivity].
+        try (match type of H with (if ?c then _ else _) = None => destruct c eqn:Ed; [discriminate|] end;
+             split; [intros _ s0 Hs0; discriminate|first [exact Ed|reflexivity]]).
+      destruct v as [|bb|z|fl|s];
+        try (match type of H with (if ?c then _ else _) = None => destruct c eqn:Ed; [discriminate|] end;
+             split; [intros _ s0 Hs0; discriminate|first [exact Ed|reflexivity]]).
+      destruct (str_default_altered s) eqn:Ea; [discriminate|].
+      match type of H with (if ?c then _ else _) = None => destruct c eqn:Ed; [discriminate|] end.
+      split; [|first [exact Ed|reflexivity]]. intros _ s0 Hs0. inversion Hs0; subst; exact Ea.
+    + split; [intros _ s He; discriminate|]. destruct (type_dropped _ _); [discriminate|reflexivity].
 Qed.
 
 Lemma typ_final_not_dropped : forall dv t, type_dropped (Some dv) (Some t) = false -> typ_final dv t = Has t.
@@ -583,13 +546,6 @@ Proof.
     - destruct (g_default t) as [[v|e|r]|]; try contradiction; [right; exists v; split; [reflexivity|exact E]|left; reflexivity].
     - destruct (g_default t); [discriminate|left; reflexivity]. }
   destruct (snt_param_analysis k q rp Hk Hsnt) as (Hv & Hsome & Hd & Ht).
-  { intros e He Hc.
-    destruct (doc_default_given dp) as [dv|] eqn:Edd.
-    - rewrite Hqv in He. destruct (Hddg dv eq_refl) as (v & -> & _). discriminate.
-    - destruct d as [e'|].
-      + rewrite Hqv in He. inversion He; subst e'. destruct (Hsig eq_refl e eq_refl) as [_ Hn].
-        rewrite (Hn Hc) in Hnq. exact Hnq.
-      + destruct (Hnodoc eq_refl eq_refl) as [Hn|(v & Hn & _)]; rewrite Hn in He; discriminate. }
   { intros r Hr.
     destruct (doc_default_given dp) as [dv|] eqn:Edd.
     - rewrite Hqv in Hr. destruct (Hddg dv eq_refl) as (v & -> & _). discriminate.
@@ -615,10 +571,10 @@ Proof.
       { destruct (Hddg dv eq_refl) as (v & -> & Hv0). rewrite Hqv. unfold norm_scalar. rewrite Hv0. destruct v; reflexivity. }
       destruct d; exact G.
     - cbn [s_default sp]. destruct d as [e|].
-      + rewrite Hqv. destruct (Hsig eq_refl e eq_refl) as [Hs _].
+      + rewrite Hqv.
         destruct e as [v| | | | | | | | |]; try reflexivity.
         cbn [expected_sig_default]. rewrite (norm_scalar_const v); [reflexivity|].
-        intros s ->. apply (Hs s eq_refl).
+        intros s ->. apply (Hsig eq_refl s eq_refl).
       + destruct (Hnodoc eq_refl eq_refl) as [Hn|(v & Hn & Hv0)]; rewrite Hn; [left; reflexivity|right].
         unfold norm_scalar. rewrite Hv0. reflexivity. }
   assert (Htyp : forall t, g_typ q = Has t -> g_typ rp = Has (typ_after_prose (doc_prose dp) t)).
@@ -656,61 +612,6 @@ Proof.
 Qed.
 
 (* ------------------------------------------------------------------ *)
-(* structure of a successful parse                                     *)
-(* ------------------------------------------------------------------ *)
-Definition append_kw (app m : list (str * gparam)) : list (str * gparam) :=
-  fold_left (fun d0 kv => od_set (fst kv) (snd kv) d0) app m.
-
-Lemma parse_function_structure : forall pi pj d n a b dc rr it ww ft fnm r,
-  fd_facts a -> doc_facts d (SFunc n a b dc rr) a ->
-  parse_function pi pj d (SFunc n a b dc rr) it ww ft fnm = Ok r ->
-  exists tparams app m,
-    kw_split a (doc_params d (SFunc n a b dc rr)) = Ok (tparams, app)
-    /\ merge_params pi tparams (sig_pairs a (pos_args a)) = Ok m
-    /\ set_names_and_types (append_kw app m) it ww = Ok (ir_params r)
-    /\ od_keys (append_kw app m) = expected_names d (SFunc n a b dc rr).
-Proof.
-  intros pi pj d n a b dc rr it ww ft fnm r F D H.
-  unfold parse_function in H.
-  destruct (pf_prepare d (SFunc n a b dc rr) ft fnm) as [pp|] eqn:Epp; cbn [bind] in H; [|discriminate].
-  destruct (ir_merge pi pj (pp_target pp) (pp_other pp)) as [m|] eqn:Em; cbn [bind] in H; [|discriminate].
-  apply pf_prepare_inv in Epp. destruct Epp as [Ekw Eother].
-  apply ir_merge_params in Em. rewrite Eother in Em.
-  apply pf_finish_params in H.
-  assert (HS : NoDup (sig_pos_names a)) by (apply (NoDup_app_l _ _ (ff_nodup a F))).
-  assert (Hop : od_of_pairs (sig_pairs a (pos_args a)) = sig_pairs a (pos_args a)).
-  { apply od_of_pairs_NoDup. rewrite sig_pairs_keys. exact HS. }
-  rewrite Hop in Em.
-  exists (ir_params (pp_target pp)), (pp_append pp), (ir_params m).
-  split; [exact Ekw|]. split; [exact Em|]. split; [exact H|].
-  apply merge_params_keys in Em; [|rewrite sig_pairs_keys; exact HS].
-  rewrite sig_pairs_keys in Em. fold (sig_pos_names a) in Em.
-  unfold append_kw. unfold kw_split in Ekw. unfold expected_names. cbn [fd_arguments].
-  unfold doc_pos_names, kwarg_documented, kwarg_name.
-  destruct (ar_kwarg a) as [karg|] eqn:Ek; cbn [option_map opt_list].
-  - destruct (od_get (a_name karg) (doc_params d (SFunc n a b dc rr))) as [p|] eqn:Eg.
-    + destruct (fld_present (g_typ p)); [|discriminate].
-      injection Ekw as Et Ea. rewrite <- Ea. cbn [fold_left fst snd].
-      assert (Hin : In (a_name karg) (doc_names d (SFunc n a b dc rr))) by (eapply od_get_Some_In_keys; exact Eg).
-      apply mem_str_In in Hin. rewrite Hin.
-      assert (Kt : od_keys (ir_params (pp_target pp))
-                   = filter (fun x => negb (str_eqb (a_name karg) x)) (doc_names d (SFunc n a b dc rr))).
-      { rewrite <- Et. apply od_keys_pop. apply (df_nodup _ _ _ D). }
-      rewrite od_keys_set_absent.
-      * rewrite Em, Kt. rewrite <- app_assoc. reflexivity.
-      * rewrite Em, Kt. intros Hx. apply in_app_or in Hx. destruct Hx as [Hx|Hx].
-        -- apply filter_In in Hx. destruct Hx as [_ Hx]. rewrite str_eqb_refl in Hx. discriminate.
-        -- apply filter_In in Hx. destruct Hx as [Hx _].
-           pose proof (ff_nodup a F) as Hnd. unfold kwarg_name in Hnd. rewrite Ek in Hnd. cbn [option_map opt_list] in Hnd.
-           apply NoDup_remove_2 in Hnd. rewrite app_nil_r in Hnd. tauto.
-    + injection Ekw as Et Ea. rewrite <- Ea. cbn [fold_left].
-      assert (Hnot : ~ In (a_name karg) (doc_names d (SFunc n a b dc rr))) by (apply od_get_None_iff; exact Eg).
-      pose proof Hnot as Hm. apply mem_str_false in Hm. rewrite Hm. rewrite app_nil_r.
-      rewrite filter_neq_notin by exact Hnot. rewrite Em, <- Et. reflexivity.
-  - injection Ekw as Et Ea. rewrite <- Ea. cbn [fold_left]. rewrite app_nil_r. rewrite Em, <- Et. reflexivity.
-Qed.
-
-(* ------------------------------------------------------------------ *)
 (* the ** parameter                                                    *)
 (* ------------------------------------------------------------------ *)
 Lemma snt_kwarg_lemma : forall k p rp,
@@ -739,12 +640,6 @@ Qed.
 Lemma list_eqb_str_refl : forall l, list_eqb str_eqb l l = true.
 Proof. induction l as [|x l IH]; cbn [list_eqb]; [reflexivity|]. rewrite str_eqb_refl, IH. reflexivity. Qed.
 
-Lemma od_get_app : forall {A} k (l1 l2 : list (str * A)),
-  od_get k (l1 ++ l2) = match od_get k l1 with Some v => Some v | None => od_get k l2 end.
-Proof.
-  intros A k l1 l2; induction l1 as [|[k0 v0] l1 IH]; cbn [app od_get]; [reflexivity|].
-  destruct (str_eqb k k0); [reflexivity|exact IH].
-Qed.
 
 Lemma first_some_class_None : forall l, first_some_class l = None -> forall x, In x l -> x = None.
 Proof.
@@ -848,14 +743,13 @@ Proof.
   unfold finding_class_C07 in Efc. cbn [fd_arguments fd] in Efc. fold fd in Efc.
   destruct (match kwarg_name a with Some _ => negb (kwarg_documented d a fd) | None => false end) eqn:C1; [discriminate|].
   match type of Efc with (if ?c then _ else _) = None => destruct c eqn:C2; [discriminate|] end.
-  destruct (negb (is_prefix (doc_pos_names d a fd) (sig_pos_names a))) eqn:C3; [discriminate|].
   destruct (Nat.ltb (List.length (pos_args a)) (List.length (ar_defaults a))) eqn:C4; [discriminate|].
   destruct (existsb kwargs_like (sig_pos_names a)) eqn:C5; [discriminate|].
   destruct (parse_default id_perm id_perm d fd) as [r0|er] eqn:C6; [|destruct er; discriminate].
   destruct (py_signature fd) as [l|] eqn:C7; [|discriminate].
-  apply negb_false_iff in C3. apply Nat.ltb_ge in C4.
+  apply Nat.ltb_ge in C4.
   assert (Hog : order_guard d fd = true).
-  { unfold order_guard. cbn [fd_arguments fd]. fold fd. rewrite C3. cbn [andb].
+  { unfold order_guard. cbn [fd_arguments fd]. fold fd.
     destruct (kwarg_name a); [apply negb_false_iff in C1; exact C1|reflexivity]. }
   exists r0. split.
   { unfold parse_default. rewrite parse_function_canonical by assumption. exact C6. }
@@ -866,8 +760,8 @@ Proof.
   { rewrite Hnames, Horder. apply list_eqb_str_refl. }
   destruct (parse_function_structure _ _ _ _ _ _ _ _ _ _ _ _ _ F D C6) as (tparams & app & m & Ekw & Em & Esn & Ekeys).
   fold fd in Ekw, Ekeys.
-  assert (Hnd1 : NoDup (od_keys (append_kw app m))) by (rewrite Ekeys; apply expected_names_NoDup; assumption).
-  assert (Hok1 : forallb name_ok (od_keys (append_kw app m)) = true).
+  assert (Hnd1 : NoDup (od_keys (append_kw app (sort_by_sig (sig_pos_names a) m)))) by (rewrite Ekeys; apply expected_names_NoDup; assumption).
+  assert (Hok1 : forallb name_ok (od_keys (append_kw app (sort_by_sig (sig_pos_names a) m))) = true).
   { rewrite Ekeys. eapply forallb_sub; [|apply (ff_ok a F)]. intros k Hk. eapply expected_names_sub; eauto. }
   assert (HS : NoDup (sig_pos_names a)) by (apply (NoDup_app_l _ _ (ff_nodup a F))).
   assert (Hndr : NoDup (od_keys (ir_params r0))) by (rewrite Hnames; apply expected_names_NoDup; assumption).
@@ -875,8 +769,8 @@ Proof.
   assert (Hgr : od_get k (ir_params r0) = Some rp) by (apply In_od_get; assumption).
   assert (Hk : In k (sig_pos_names a ++ opt_list (kwarg_name a))).
   { rewrite <- (sig_names_spec n a b dc rr F). fold fd. rewrite <- Horder, <- Hnames. eapply od_get_Some_In_keys; exact Hgr. }
-  assert (Hkeq : od_keys (ir_params r0) = od_keys (append_kw app m)) by (apply (set_names_and_types_keys _ _ _ _ Hnd1 Hok1 Esn)).
-  assert (Hk1 : In k (od_keys (append_kw app m))).
+  assert (Hkeq : od_keys (ir_params r0) = od_keys (append_kw app (sort_by_sig (sig_pos_names a) m))) by (apply (set_names_and_types_keys _ _ _ _ Hnd1 Hok1 Esn)).
+  assert (Hk1 : In k (od_keys (append_kw app (sort_by_sig (sig_pos_names a) m)))).
   { rewrite <- Hkeq. eapply od_get_Some_In_keys; exact Hgr. }
   destruct (od_get_In_keys _ _ Hk1) as [q Hq].
   destruct (set_names_and_types_get _ _ _ _ _ _ Hnd1 Hok1 Esn Hq) as (rp' & Hsnt & Hgr').
@@ -892,7 +786,8 @@ Proof.
       cbn [option_map opt_list] in Hnd. apply NoDup_remove_2 in Hnd. rewrite app_nil_r in Hnd. subst k. tauto. }
     (* the merged entry before _set_name_and_type *)
     assert (Hqm : od_get k m = Some q /\ od_get k tparams = od_get k (doc_params d fd)).
-    { destruct (ar_kwarg a) as [karg|] eqn:Eka.
+    { rewrite <- (sort_by_sig_get (sig_pos_names a) m k HS).
+      destruct (ar_kwarg a) as [karg|] eqn:Eka.
       - destruct (od_get (a_name karg) (doc_params d fd)) as [p|] eqn:Egk.
         + destruct (fld_present (g_typ p)); [|discriminate]. injection Ekw as <- <-.
           unfold append_kw in Hq. cbn [fold_left fst snd] in Hq.
@@ -936,25 +831,21 @@ Proof.
 Qed.
 
 (* ------------------------------------------------------------------ *)
-(* the full statement is false: documented-first order                  *)
+(* the full statement is false: an undocumented ** parameter is dropped *)
 (* ------------------------------------------------------------------ *)
-(* def f(a, b):
-       """Doc.
-
-       :param b: the b"""
+(* def f(a, **kwargs):
        pass                                                            *)
 Definition wit_fd : stmt :=
-  SFunc (L "f") (mkArguments [mkArg (L "a") None; mkArg (L "b") None] [] [] [] None None)
-        [SExpr (EConst (VStr (L "Doc." ++ [nl; nl] ++ L ":param b: the b"))); SOther (L "Pass") (L "pass") []] [] None.
+  SFunc (L "f") (mkArguments [mkArg (L "a") None] [] [] [] None (Some (mkArg (L "kwargs") None)))
+        [SOther (L "Pass") (L "pass") []] [] None.
 
-Definition wit_doc : option ir :=
-  Some (mkIR FNone (Has (L "static")) (Has (L "Doc.")) [(L "b", mkG (Has (L "the b")) Missing None)] FNone None).
+Definition wit_doc : option ir := None.
 
 Lemma wit_in_domain : C07_domain wit_doc wit_fd = true.
 Proof. vm_compute. reflexivity. Qed.
 
 Lemma wit_result_names : exists r, parse_default id_perm id_perm wit_doc wit_fd = Ok r
-                                   /\ od_keys (ir_params r) = [L "b"; L "a"] /\ sig_names wit_fd = [L "a"; L "b"].
+                                   /\ od_keys (ir_params r) = [L "a"] /\ sig_names wit_fd = [L "a"; L "kwargs"].
 Proof. eexists. split; [vm_compute; reflexivity|]. split; vm_compute; reflexivity. Qed.
 
 Lemma C07_refuted_lemma : ~ C07_statement.
@@ -965,8 +856,21 @@ Proof.
   rewrite Hk, Hs in Hc. vm_compute in Hc. discriminate.
 Qed.
 
-Lemma wit_class : finding_class_C07 wit_doc wit_fd = Some K_doc_order.
+Lemma wit_class : finding_class_C07 wit_doc wit_fd = Some K_kwargs_undocumented.
 Proof. vm_compute. reflexivity. Qed.
+
+(* the witness of the order defect that fix cc5b15e removed now holds:
+   def f(a, b):  documenting only b *)
+Definition old_wit_fd : stmt :=
+  SFunc (L "f") (mkArguments [mkArg (L "a") None; mkArg (L "b") None] [] [] [] None None)
+        [SExpr (EConst (VStr (L "Doc." ++ [nl; nl] ++ L ":param b: the b"))); SOther (L "Pass") (L "pass") []] [] None.
+
+Definition old_wit_doc : option ir :=
+  Some (mkIR FNone (Has (L "static")) (Has (L "Doc.")) [(L "b", mkG (Has (L "the b")) Missing None)] FNone None).
+
+Lemma old_witness_now_holds : guard_C07 old_wit_doc old_wit_fd = true
+  /\ exists r, parse_default id_perm id_perm old_wit_doc old_wit_fd = Ok r /\ od_keys (ir_params r) = [L "a"; L "b"].
+Proof. split; [vm_compute; reflexivity|]. eexists. split; vm_compute; reflexivity. Qed.
 
 (* ------------------------------------------------------------------ *)
 (* non-vacuity and class-free corollaries                              *)
@@ -1012,32 +916,41 @@ Lemma C07_names_undocumented : forall pi pj d fd it ww ft fnm r, C07_domain d fd
   parse_function pi pj d fd it ww ft fnm = Ok r -> od_keys (ir_params r) = sig_names fd.
 Proof.
   intros pi pj d fd it ww ft fnm r Hdom Hd Hk H. eapply C07_names_lemma; eauto.
-  unfold order_guard. destruct (fd_arguments fd) as [a|]; [|destruct Hk]. rewrite Hk.
-  unfold doc_pos_names. rewrite Hk, Hd. reflexivity.
+  unfold order_guard. destruct (fd_arguments fd) as [a|]; [|destruct Hk]. rewrite Hk. reflexivity.
 Qed.
 
-(* everything documented, in signature order (a ** parameter documented anywhere) *)
-Lemma C07_names_all_in_order : forall pi pj d fd it ww ft fnm r a, C07_domain d fd = true ->
-  fd_arguments fd = Some a -> doc_pos_names d a fd = sig_pos_names a ->
-  (match kwarg_name a with Some _ => kwarg_documented d a fd = true | None => True end) ->
+(* no ** parameter: the source order whatever the docstring documents, in whatever order *)
+Lemma C07_names_no_kwarg : forall pi pj d fd it ww ft fnm r a, C07_domain d fd = true ->
+  fd_arguments fd = Some a -> kwarg_name a = None ->
   parse_function pi pj d fd it ww ft fnm = Ok r -> od_keys (ir_params r) = sig_names fd.
 Proof.
-  intros pi pj d fd it ww ft fnm r a Hdom Ha Hd Hk H. eapply C07_names_lemma; eauto.
-  unfold order_guard. rewrite Ha, Hd.
-  assert (E : is_prefix (sig_pos_names a) (sig_pos_names a) = true).
-  { apply is_prefix_spec. exists []. rewrite app_nil_r. reflexivity. }
-  rewrite E. destruct (kwarg_name a); [exact Hk|reflexivity].
+  intros pi pj d fd it ww ft fnm r a Hdom Ha Hk H. eapply C07_names_lemma; eauto.
+  unfold order_guard. rewrite Ha, Hk. reflexivity.
 Qed.
 
-(* when the order differs it is exactly "documented first" - and still a permutation: nothing lost, nothing twice *)
-Lemma C07_permutation_lemma : forall pi pj d fd it ww ft fnm r, C07_domain d fd = true ->
-  (match fd_arguments fd with
-   | Some a => match kwarg_name a with Some _ => kwarg_documented d a fd | None => true end
-   | None => false end) = true ->
-  parse_function pi pj d fd it ww ft fnm = Ok r -> Permutation (od_keys (ir_params r)) (sig_names fd).
+(* a documented ** parameter: the source order too *)
+Lemma C07_names_kwarg_documented : forall pi pj d fd it ww ft fnm r a, C07_domain d fd = true ->
+  fd_arguments fd = Some a -> kwarg_documented d a fd = true ->
+  parse_function pi pj d fd it ww ft fnm = Ok r -> od_keys (ir_params r) = sig_names fd.
 Proof.
-  intros pi pj d fd it ww ft fnm r Hdom Hk H. rewrite (parse_function_names _ _ _ _ _ _ _ _ _ Hdom H).
-  apply expected_names_perm; assumption.
+  intros pi pj d fd it ww ft fnm r a Hdom Ha Hk H. eapply C07_names_lemma; eauto.
+  unfold order_guard. rewrite Ha, Hk. destruct (kwarg_name a); reflexivity.
+Qed.
+
+(* an undocumented ** parameter is the only thing that can be missing *)
+(* when the order differs it is exactly "documented first" - and still a permutation: nothing lost, nothing twice *)
+Lemma C07_missing_only_kwarg : forall pi pj d fd it ww ft fnm r a, C07_domain d fd = true ->
+  fd_arguments fd = Some a -> parse_function pi pj d fd it ww ft fnm = Ok r ->
+  od_keys (ir_params r) = sig_names fd
+  \/ (exists k, kwarg_name a = Some k /\ sig_names fd = od_keys (ir_params r) ++ [k]).
+Proof.
+  intros pi pj d fd it ww ft fnm r a Hdom Ha H. rewrite (parse_function_names _ _ _ _ _ _ _ _ _ Hdom H).
+  unfold C07_domain in Hdom. apply andb_true_iff in Hdom. destruct Hdom as [Hwf Hdoc].
+  destruct (wf_fd_facts _ Hwf) as (n & a' & b & dc & rr & -> & F). cbn [fd_arguments] in Ha. inversion Ha; subst a'.
+  pose proof (wf_doc_facts _ _ _ _ _ _ Hdoc) as D.
+  rewrite (expected_names_domain _ _ _ _ _ _ D), (sig_names_spec _ _ _ _ _ F).
+  destruct (kwarg_documented d a (SFunc n a b dc rr)) eqn:Ek; [left; reflexivity|].
+  destruct (kwarg_name a) as [k|]; cbn [opt_list]; [right; exists k; rewrite app_nil_r; split; reflexivity|left; reflexivity].
 Qed.
 
 (* ------------------------------------------------------------------ *)
